@@ -169,7 +169,8 @@ func hugeChunk(c Case) bool {
 		}
 	}
 	for _, e := range c.Ops {
-		if e.ChunkSize > 1<<31 || e.Size > 1<<31 {
+		// the db store derives chunk sizes from the chunk offsets and the file size
+		if e.ChunkSize > 1<<31 || e.Size > 1<<31 || e.ChunkOffset > 1<<31 || e.ChunkOffset < -(1<<31) {
 			return true
 		}
 	}
